@@ -7,6 +7,7 @@ package c19
 import (
 	"fmt"
 	"os"
+	"sort"
 	"testing"
 	"time"
 
@@ -19,13 +20,16 @@ import (
 )
 
 type Case struct {
-	Corpus     model.Corpus      `json:"corpus"`
-	FracOf     []int             `json:"frac_of"`
-	K          int               `json:"k"`
-	LastActive bool              `json:"last_active"`
-	R          model.SearchReq   `json:"r"`
-	Style      model.RenderStyle `json:"style"`
-	Aggs       []model.AggSpec   `json:"aggs,omitempty"`
+	Corpus     model.Corpus `json:"corpus"`
+	FracOf     []int        `json:"frac_of"`
+	K          int          `json:"k"`
+	LastActive bool         `json:"last_active"`
+	// Dups: [document index, fraction] - the document is delivered once more into another
+	// fraction (a repeat that the merge has to drop: ids, histogram and aggregations count it once)
+	Dups  [][2]int          `json:"dups,omitempty"`
+	R     model.SearchReq   `json:"r"`
+	Style model.RenderStyle `json:"style"`
+	Aggs  []model.AggSpec   `json:"aggs,omitempty"`
 	// crash after the N-th hit of Point inside mustWriteFileAtomic (0: no crash);
 	// Again: once more after that many further hits in the restarted process
 	Point string `json:"point,omitempty"` // async.write.begin | async.write.synced | async.write.renamed
@@ -45,6 +49,15 @@ func genCase(t *rapid.T) Case {
 	c.LastActive = rapid.Bool().Draw(t, "lastactive")
 	for range c.Corpus {
 		c.FracOf = append(c.FracOf, rapid.IntRange(0, c.K-1).Draw(t, "frac"))
+	}
+	if c.K > 1 {
+		for n := rapid.IntRange(0, 3).Draw(t, "ndups"); n > 0; n-- {
+			i := rapid.IntRange(0, len(c.Corpus)-1).Draw(t, "dupdoc")
+			f := rapid.IntRange(0, c.K-1).Draw(t, "dupfrac")
+			if f != c.FracOf[i] {
+				c.Dups = append(c.Dups, [2]int{i, f})
+			}
+		}
 	}
 	c.R = gen.SearchReq(t, c.Corpus, 3)
 	if rapid.Bool().Draw(t, "matchall") {
@@ -95,13 +108,41 @@ func waitDone(p *harness.Proc, id string, aggs []model.AggSpec) (*harness.PResp,
 	}
 }
 
-func compare(what string, r *harness.PResp, corpus model.Corpus, c *Case) error {
+// aggKey: a canonical form of one aggregation result (bucket order is not significant)
+func aggKey(a harness.AggOut) string {
+	var rows []string
+	for _, b := range a.Buckets {
+		rows = append(rows, fmt.Sprintf("%q@%d=%s%v/%d", b.Name, b.MID, b.Value, b.Quantiles, b.NotExists))
+	}
+	sort.Strings(rows)
+	return fmt.Sprintf("not_exists=%d %v", a.NotExists, rows)
+}
+
+// compare: ids and histogram against the model; aggregations against the model too, or -
+// when a document lives in two fractions, which the per-fraction aggregation cannot know
+// and the synchronous search therefore counts twice as well - against the synchronous answer
+// (aggRef; nil: not comparable, e.g. the search was started anew over more fractions).
+func compare(what string, r *harness.PResp, corpus model.Corpus, c *Case, dups bool, aggRef *harness.PResp) error {
 	want := model.Search(corpus, &c.R)
 	if !model.EqualIDs(r.IDs, want.IDs) {
 		return evid.Failf("ids-differ", "[%s] got %d ids %v, want %d ids %v", what, len(r.IDs), head(r.IDs), len(want.IDs), head(want.IDs))
 	}
 	if c.R.Interval > 0 && !harness.EqualHist(r.Hist, want.Hist) {
 		return evid.Failf("hist-differs", "[%s] got %s want %s", what, harness.FmtHist(r.Hist), harness.FmtHist(want.Hist))
+	}
+	if len(c.Aggs) > 0 && dups {
+		if aggRef == nil {
+			return nil
+		}
+		if len(r.Aggs) != len(aggRef.Aggs) {
+			return evid.Failf("aggs-missing", "[%s] %d aggregation results, the synchronous search gave %d", what, len(r.Aggs), len(aggRef.Aggs))
+		}
+		for i := range r.Aggs {
+			if g, w := aggKey(r.Aggs[i]), aggKey(aggRef.Aggs[i]); g != w {
+				return evid.Failf("agg-differs-from-sync", "[%s] agg %+v: got %s, the synchronous search gave %s", what, c.Aggs[i], g, w)
+			}
+		}
+		return nil
 	}
 	if len(c.Aggs) > 0 {
 		if len(r.Aggs) != len(c.Aggs) {
@@ -139,11 +180,24 @@ func runCase(c Case) (evid.Result, error) {
 	}
 	defer func() { p.Kill() }()
 	nfr := 0
+	dupApplied := false
 	for f := 0; f < c.K; f++ {
 		var part []model.Doc
 		for i, d := range c.Corpus {
 			if c.FracOf[i] == f {
 				part = append(part, d)
+			}
+		}
+		for _, dp := range c.Dups {
+			if dp[1] == f && dp[0] >= 0 && dp[0] < len(c.Corpus) && c.FracOf[dp[0]] != f {
+				dup := false
+				for _, d := range part {
+					dup = dup || d.ID == c.Corpus[dp[0]].ID
+				}
+				if !dup {
+					part = append(part, c.Corpus[dp[0]])
+					dupApplied = true
+				}
 			}
 		}
 		if len(part) == 0 {
@@ -159,6 +213,9 @@ func runCase(c Case) (evid.Result, error) {
 			}
 		}
 	}
+	if dupApplied {
+		res.Labels = append(res.Labels, "document-in-two-fractions")
+	}
 	text := model.RenderSeqQL(c.R.Q, c.Style)
 	// the synchronous answer over the same fractions
 	sync, err := p.Do(harness.PCmd{Op: "search", Req: &c.R, Text: text, Aggs: c.Aggs})
@@ -168,7 +225,7 @@ func runCase(c Case) (evid.Result, error) {
 	if !sync.OK {
 		return res, evid.Failf("search-error", "%q: %s", text, sync.Err)
 	}
-	if err := compare("sync", sync, c.Corpus, &c); err != nil {
+	if err := compare("sync", sync, c.Corpus, &c, dupApplied, nil); err != nil {
 		return res, err
 	}
 	id := "req-1"
@@ -247,7 +304,11 @@ func runCase(c Case) (evid.Result, error) {
 		}
 		final, err = waitDone(p, id, c.Aggs)
 	}
-	if err := compare("async", final, expected, &c); err != nil {
+	aggRef := sync
+	if len(expected) != len(c.Corpus) {
+		aggRef = nil
+	}
+	if err := compare("async", final, expected, &c, dupApplied, aggRef); err != nil {
 		return res, err
 	}
 	res.Evals = 2
@@ -266,7 +327,7 @@ func runCase(c Case) (evid.Result, error) {
 		}
 		return res, evid.Failf("died-in-async", "after final restart: exit %d %s", p.Exit, p.StderrTail())
 	}
-	if err := compare("async after restart", again, expected, &c); err != nil {
+	if err := compare("async after restart", again, expected, &c, dupApplied, aggRef); err != nil {
 		return res, err
 	}
 	res.Evals++
